@@ -54,15 +54,20 @@ def kinds():
         ('keccak-call r', False, lambda e: keccak.Keccak.__call__(e.A, M1, None, 1024)), ('sibling M1', True, lambda e: e.B(M1)), ('shake128', True, lambda e: sha.SHAKE128(M1, 264))])
     kf = lambda: keccak.Keccak(b=1600, c=512, len=256)
     K['Keccak'] = (kf, [
-        ('call M1', True, lambda e: e.A(M1)), ('call M2 bitlen', True, lambda e: e.A(M2, 13)), ('call M1 r=1024', True, lambda e: e.A(M1, None, 1024)),
+        ('call M1', True, lambda e: e.A(M1)), ('call M2 bitlen', True, lambda e: e.A(M2, 13)), ('call M1 r=1344', True, lambda e: e.A(M1, None, 1344)),
         ('duplex', False, lambda e: e.A.duplex(b'ab', 11, 64)), ('sibling M1', True, lambda e: e.B(M1)), ('singleton keccak_256 M1', True, lambda e: keccak.keccak_256(M1))])
     K['Keccak-200'] = (lambda: keccak.Keccak(b=200, r=72, len=64), [
-        ('call M1', True, lambda e: e.A(M1)), ('call M2 bitlen', True, lambda e: e.A(M2, 143)), ('call M1 r=40', True, lambda e: e.A(M1, None, 40)),
+        ('call M1', True, lambda e: e.A(M1)), ('call M2 bitlen', True, lambda e: e.A(M2, 143)), ('call M1 r=136', True, lambda e: e.A(M1, None, 136)),
         ('overlong', False, lambda e: e.A(b'ab', 17)), ('sibling M1', True, lambda e: e.B(M1)), ('duplex', False, lambda e: e.A.duplex(b'a', 3, 8))])
     def md6f():
         h = md.MD6(256, b'key', 64); h.rounds = 2; return h
     K['MD6'] = (md6f, [
         ('call M1', True, lambda e: e.A(M1)), ('call M3 bitlen', True, lambda e: e.A(M3, 8 * len(M3) - 3)), ('overlong', False, lambda e: e.A(b'ab', 17)),
+        ('call empty', True, lambda e: e.A(b'')), ('sibling M1', True, lambda e: e.B(M1)), ('call long', True, lambda e: e.A(M3 * 7))])
+    def md6s():
+        h = md.MD6(256, b'', 0); h.rounds = 2; return h
+    K['MD6-seq'] = (md6s, [
+        ('call M1', True, lambda e: e.A(M1)), ('call M3*4 bitlen', True, lambda e: e.A(M3 * 4, 8 * len(M3 * 4) - 3)), ('overlong', False, lambda e: e.A(b'ab', 17)),
         ('call empty', True, lambda e: e.A(b'')), ('sibling M1', True, lambda e: e.B(M1)), ('call long', True, lambda e: e.A(M3 * 7))])
     K['Blake'] = (lambda: blake.Blake(256), [
         ('call M1', True, lambda e: e.A(M1)), ('call M2 salt bitlen', True, lambda e: e.A(M2, 12345, 8 * len(M2) - 3)), ('overlong', False, lambda e: e.A(M1, 0, 8 * len(M1) + 1)),
@@ -102,7 +107,7 @@ def kinds():
         K[name] = (factory, [
             ('enc B1', True, lambda e: e.A.enc(B1)), ('dec B2', True, lambda e: e.A.dec(B2)), ('enc wrong size', False, lambda e: e.A.enc(B1 + b'x')),
             ('enc B3', True, lambda e: e.A.enc(B3)), ('sibling enc B1', True, lambda e: e.B.enc(B1)), ('dec(enc B1)', True, lambda e: e.A.dec(e.A.enc(B1)))])
-    cipherkind('AES', lambda: aes.AES(BLK(16)), 16); cipherkind('AES-256', lambda: aes.AES(BLK(32)), 16)
+    cipherkind('AES', lambda: aes.AES(BLK(16)), 16); cipherkind('AES-256', lambda: aes.AES(BLK(16) + bytes(16)), 16)       # related keys: same leading bytes, zero-extended
     cipherkind('DES', lambda: des.DES(BLK(8)), 8); cipherkind('TDEA', lambda: des.TDEA(BLK(24)), 8)
     cipherkind('Serpent', lambda: serpent.Serpent(BLK(20)), 16); cipherkind('Threefish', lambda: threefish.Threefish(BLK(32), BLK(16)), 32)
     def modekind(name, factory, bl, raising):
@@ -129,11 +134,11 @@ def kinds():
     other = {
         'SHA1': lambda e: sha.SHA1(0)(M2), 'SHA0': lambda e: sha.SHA1(1)(M2), 'SHA2-256': lambda e: sha.SHA2(224)(M2), 'SHA2-512/256': lambda e: sha.SHA2(512, 224)(M2),
         'SHA2-384': lambda e: sha.SHA2(512)(M2), 'MD4': lambda e: md.MD5()(M2), 'MD5': lambda e: md.MD4()(M2), 'SHA3': lambda e: sha.SHA3(512)(M2),
-        'Keccak': lambda e: keccak.Keccak(b=800, r=256, len=128)(M2, 77), 'Keccak-200': lambda e: keccak.Keccak(b=200, r=64, len=72)(M2), 'MD6': lambda e: md.MD6(160, b'', 0)(M2),
+        'Keccak': lambda e: keccak.Keccak(b=800, r=256, len=128)(M2, 77), 'Keccak-200': lambda e: keccak.Keccak(b=200, r=64, len=72)(M2), 'MD6': lambda e: md.MD6(160, b'', 0)(M2), 'MD6-seq': lambda e: md.MD6(512, b'k', 1)(M3 * 9),
         'Blake': lambda e: blake.Blake(224)(M2, 7), 'Blake512': lambda e: blake.Blake(384)(M2, 7), 'Blake2b': lambda e: blake.Blake2(256)(M2, outlen=9), 'Blake2s': lambda e: blake.Blake2(512)(M2, outlen=33),
         'Skein': lambda e: skein.Skein(512, 160, key=b'k')(M2), 'Skein-mac-long': lambda e: skein.Skein(256, 64)(M2), 'Skein-tree': lambda e: skein.Skein(256, 256, Yl=2, Yf=1, Ym=2)(M3),
         'HMAC': lambda e: hmac.HMAC(md.MD5(), b'k2')(M2), 'TLSH': lambda e: tlsh.TLSH(256, 6, 3)(D2, True), 'Nilsimsa': lambda e: nilsimsa.Nilsimsa(99)(D2),
-        'AES': lambda e: aes.AES(BLK(24)[::-1]).enc(BLK(16)), 'AES-256': lambda e: aes.AES(BLK(16)[::-1]).dec(BLK(16)), 'DES': lambda e: des.DES(BLK(8)[::-1]).enc(BLK(8)),
+        'AES': lambda e: aes.AES(BLK(16) + bytes(16)).enc(BLK(16)), 'AES-256': lambda e: aes.AES(BLK(16)).dec(BLK(16)), 'DES': lambda e: des.DES(BLK(8)[::-1]).enc(BLK(8)),
         'TDEA': lambda e: des.TDEA(BLK(16)[::-1]).enc(BLK(8)), 'Serpent': lambda e: serpent.Serpent(BLK(32)[::-1]).enc(BLK(16)), 'Threefish': lambda e: threefish.Threefish(BLK(64), BLK(16)[::-1]).enc(BLK(64)),
         'ECB': lambda e: mode.ECB(aes.AES(BLK(32)), nopadding).enc(M1[:32]), 'CBC': lambda e: mode.CBC(des.DES(BLK(8)), BLK(8)).enc(M2), 'ECB-nopad': lambda e: mode.ECB(des.DES(BLK(8)[::-1])).enc(M2),
         'CBC-nopad': lambda e: mode.CBC(aes.AES(BLK(16)), BLK(16)).enc(M2), 'CTR': lambda e: mode.CTR(des.DES(BLK(8)), BLK(8)).enc(M2), 'CTS_ECB': lambda e: mode.CTS_ECB(des.DES(BLK(8))).enc(M2),
@@ -143,7 +148,7 @@ def kinds():
         K[name][1].append(('other configuration instance', False, other[name]))
     return K
 
-STATEFUL = {'ECB', 'CBC', 'ECB-nopad', 'CBC-nopad', 'CTR', 'CTS_ECB', 'CTS_CBC', 'Blake2b', 'Blake2s', 'Keccak', 'Keccak-200', 'SHA3', 'Skein', 'Skein-mac-long', 'Skein-tree', 'AES', 'TLSH', 'Nilsimsa', 'HMAC', 'MD6'}
+STATEFUL = {'ECB', 'CBC', 'ECB-nopad', 'CBC-nopad', 'CTR', 'CTS_ECB', 'CTS_CBC', 'Blake2b', 'Blake2s', 'Keccak', 'Keccak-200', 'SHA3', 'Skein', 'Skein-mac-long', 'Skein-tree', 'AES', 'TLSH', 'Nilsimsa', 'HMAC', 'MD6', 'MD6-seq'}
 
 def run(ctx):
     rnd = ctx.rnd; big = ctx.big()
